@@ -6,6 +6,11 @@ VERIF = os.path.dirname(os.path.dirname(os.path.abspath(__file__)))
 man = json.load(open(os.path.join(VERIF, "MANIFEST.json")))
 allp = [c["property_id"] for c in man["checks"]]
 args = [a for a in sys.argv[1:] if not a.startswith("--")]
+if "--props" in sys.argv:
+    # (development aid: only these checks; the recorded battery runs all of them)
+    _i = sys.argv.index("--props")
+    allp = sys.argv[_i + 1].split(",")
+    args = [a for a in args if a != sys.argv[_i + 1]]
 import concurrent.futures as cf
 jobs = 4
 if "-j" in sys.argv:
